@@ -1819,11 +1819,20 @@ class FloatData(Data[float]):
     @classmethod
     def parse_parameter(cls, parser: AttrParser) -> float:
         with parser.in_angle_brackets():
-            return float(parser.parse_number())
+            is_hex = parser._current_token.text[:2] in ("0x", "0X")  # pyright: ignore[reportPrivateUsage]
+            value = parser.parse_number()
+            if is_hex and isinstance(value, int):
+                # The bit pattern of a value whose repr is not a float literal
+                return struct.unpack("<d", struct.pack("<Q", value))[0]
+            return float(value)
 
     def print_parameter(self, printer: Printer) -> None:
         with printer.in_angle_brackets():
-            printer.print_string(f"{self.data}")
+            text = f"{self.data}"
+            if "." not in text:
+                # nan, inf, 1e+300 are not float literals: print the bit pattern
+                text = f"0x{struct.unpack('<Q', struct.pack('<d', self.data))[0]:016X}"
+            printer.print_string(text)
 
     def __eq__(self, other: object):
         # compare bit patterns: distinguishes 0.0 from -0.0 and NaN payloads, and
